@@ -1,0 +1,9 @@
+//go:build verif
+
+package db
+
+// VerifCloseC13 closes the underlying database handle (the storage has no Close; the /verif C13 harness
+// opens thousands of temporary databases and simulates restarts by re-opening the same file).
+func (a *AggSenderSQLStorage) VerifCloseC13() error {
+	return a.db.Close()
+}
